@@ -13,6 +13,11 @@ pub fn opts(n: usize) -> Options {
 		stats: false,
 		salt: None,
 		compression_threshold: Default::default(),
+		// the native replay builds the crate as a test (cfg(test)), where Options has two more fields
+		#[cfg(any(test, feature = "instrumentation"))]
+		with_background_thread: false,
+		#[cfg(any(test, feature = "instrumentation"))]
+		always_flush: false,
 	}
 }
 
